@@ -30,7 +30,7 @@
 (* Not covered: BIFF2-4 record ids (0x0009/0x0209/0x0409 BOF, 0x0004 LABEL *)
 (* ...), RSTRING (0x00D6, ignored by calamine), BIFF5 formula tokens,      *)
 (* CONTINUE, CODEPAGE values 0x8000/0x8001 (BIFF2-4 only), CODEPAGE 1200   *)
-(* in a BIFF5 workbook (not meaningful), force_codepage.                   *)
+(* in a BIFF5 workbook (not meaningful).                                   *)
 (***************************************************************************)
 EXTENDS Naturals, Sequences, FiniteSets, TLC, SequencesExt
 
@@ -252,8 +252,12 @@ ParseSst(d, enc) ==
   ELSE ReadSst(Drop(d, 8), U32(d, 5), enc, <<>>, <<>>)
 
 \* state of the first loop of parse_workbook
-G0 == [err |-> "", stop |-> FALSE, biff |-> "Biff8", enc |-> 1200, fmts |-> <<>>, xfs |-> <<>>,
-       names |-> <<>>, defs |-> <<>>, sst |-> <<>>, calls |-> <<>>]
+\* XlsOptions::force_codepage (`force`, 0 = not set): the page every byte string is read with, whatever
+\* the CODEPAGE record says -- the record is still length-checked, its value is not looked at
+G0F(force) == [err |-> IF force # 0 /\ force \notin Known /\ "UnsupportedCodePage" \notin Rep THEN "CodePageNotFound" ELSE "",
+               stop |-> FALSE, biff |-> "Biff8", enc |-> IF force # 0 THEN force ELSE 1200, force |-> force, fmts |-> <<>>, xfs |-> <<>>,
+               names |-> <<>>, defs |-> <<>>, sst |-> <<>>, calls |-> <<>>]
+G0 == G0F(0)
 Fail(g, e) == [g EXCEPT !.err = e]
 
 GlobalsRec(g, rec) ==
@@ -262,6 +266,7 @@ GlobalsRec(g, rec) ==
            d   == rec[2]
   IN CASE typ = 47   -> Fail(g, "Password")                                    \* 0x002F FilePass
        [] typ = 66   -> IF Len(d) < 2 THEN Fail(g, "Len(CodePage)")            \* 0x0042 CodePage
+                        ELSE IF g.force # 0 THEN g
                         ELSE IF U16(d, 1) \notin Known /\ "UnsupportedCodePage" \notin Rep THEN Fail(g, "CodePageNotFound")
                         ELSE [g EXCEPT !.enc = U16(d, 1)]
        [] typ = 1054 -> LET r == ParseFormat(d, g.enc, g.biff)                         \* 0x041E Format
@@ -344,8 +349,8 @@ SheetRec(g, s, rec) ==
 \* that name (self.sheets is a map by name: a later sheet of the same name replaces an earlier one),
 \* and the defined names
 ErrObs(e) == [err |-> e, sheets |-> <<>>, defs |-> <<>>]
-ReadStream(st) ==
-  LET g == FoldLeft(GlobalsRec, G0, st.g) IN
+ReadStreamF(st, force) ==
+  LET g == FoldLeft(GlobalsRec, G0F(force), st.g) IN
   IF g.err # "" THEN [obs |-> ErrObs(g.err), calls |-> g.calls, scans |-> <<>>]
   ELSE LET n  == Len(g.names)
            \* every custom format text the reader classified (re-evaluated by the harness with the real scanner)
@@ -361,8 +366,10 @@ ReadStream(st) ==
                    calls |-> allcalls, scans |-> scans]
 
 \* cfb.get_stream("Workbook").or_else(|_| cfb.get_stream("Book"))
-Read(file) ==
-  IF "Workbook" \in DOMAIN file THEN ReadStream(file["Workbook"])
-  ELSE IF "Book" \in DOMAIN file THEN ReadStream(file["Book"])
+ReadStream(st) == ReadStreamF(st, 0)
+ReadF(file, force) ==
+  IF "Workbook" \in DOMAIN file THEN ReadStreamF(file["Workbook"], force)
+  ELSE IF "Book" \in DOMAIN file THEN ReadStreamF(file["Book"], force)
   ELSE [obs |-> ErrObs("StreamNotFound"), calls |-> <<>>, scans |-> <<>>]
+Read(file) == ReadF(file, 0)
 =============================================================================
